@@ -8,7 +8,7 @@ from .catalogue import BROADCAST_TARGET, CATALOGUE
 from .pipeline import format_choices
 
 
-SWEEP = [("a(i,j,k) = b(i,j,k)", ["d0d1d2", "s0s1s2", "d0s1s2"]), ("a(i,j) = b(i,j)", ["d0d1", "s0s1"]),
+SWEEP = [("a(i,j,k) = b(i,j,k)", ["d0d1d2", "s0s1s2", "d0s1s2", "d0d1s2", "s0d1s2"]), ("a(i,j) = b(i,j)", ["d0d1", "s0s1"]),
          ("a(i,j) = b(i,j,k) * c(k)", ["d0d1d2", "s0s1s2"])]
 
 
